@@ -256,6 +256,14 @@ def case_hutch_cap(T, max_iters, k, rand):
         cnt[0] = 0
         dt_.diag(A, k, de.Hutch(tol=1.1e-3, max_iters=max_iters, rand=rand, key=5))
         T.check(f"diag(Hutch): products <= max_iters ({max_iters})", cnt[0] <= max_iters, f"{cnt[0]} products with the operator")
+        # the automatic entry point with a tolerance that selects the stochastic estimator hands the cap on
+        cnt[0] = 0
+        dt_.diag(A, k, cola.linalg.Auto(tol=0.3, max_iters=max_iters, rand=rand, key=5))
+        T.check(f"diag(Auto(tol, max_iters)): products <= max_iters ({max_iters})", cnt[0] <= max_iters, f"{cnt[0]} products with the operator")
+        if k == 0:
+            cnt[0] = 0
+            dt_.trace(A, cola.linalg.Auto(tol=0.3, max_iters=max_iters, rand=rand, key=5))
+            T.check(f"trace(Auto(tol, max_iters)): products <= max_iters ({max_iters})", cnt[0] <= max_iters, f"{cnt[0]} products with the operator")
     finally:
         shim.symbolic(was)
 
